@@ -435,6 +435,21 @@ func marshalAfterDecrypt(c *engine.Ctx) {
 				}
 			}
 		}
+		// a KDC request carrying, as additional ticket, a ticket that was decrypted before (user-to-user, S4U2Proxy)
+		var t3 messages.Ticket
+		if err := t3.Unmarshal(tktB); err == nil {
+			if err := t3.Decrypt(key(replyKey)); err == nil {
+				body := messages.KDCReqBody{KDCOptions: types.NewKrbFlags(), Realm: "TEST.GOKRB5", SName: types.PrincipalName{NameType: 2, NameString: []string{"HTTP", "h"}},
+					Till: now.Add(time.Hour), Nonce: 5, EType: []int32{et}, AdditionalTickets: []messages.Ticket{t3}}
+				b, err := body.Marshal()
+				check("KDCReqBody.Marshal(additional ticket decrypted before)", b, err)
+				rv, err := messages.MarshalTicketSequence([]messages.Ticket{t3})
+				check("MarshalTicketSequence(ticket decrypted before)", rv.FullBytes, err)
+				if len(rv.FullBytes) == 0 {
+					check("MarshalTicketSequence(ticket decrypted before).Bytes", rv.Bytes, err)
+				}
+			}
+		}
 		// KRB-PRIV
 		priv := krbmsg.KRBPriv{PVNO: 5, MsgType: 21, Enc: seal(sessKey, 13, krbmsg.EncKrbPrivPart{UserData: append([]byte("new password: "), subKey...), SAddress: krbmsg.HostAddress{Type: 2, Addr: []byte{10, 0, 0, 1}}}.Encode())}
 		var kp messages.KRBPriv
@@ -488,5 +503,5 @@ func Run(c *engine.Ctx) {
 			engine.Fatal("vacuous harness: operation %q never failed", must)
 		}
 	}
-	c.Cov["rule"] = "every operation sequence up to depth 2 (3 thorough) after a login over the 13-operation alphabet x 5 configurations (password / keytab, pre-authentication none / required / assumed, rc4 only, renewable) with every surface scanned after every step; every reply perturbation of the C09 catalogue (40) on the AS and on the TGS exchange x 3 configurations; every truncation and 7-8 single-byte corruptions per offset of keytabs (v1, v2) and a ccache holding marker keys; every defect of the C01 catalogue x 6 etypes presented to the service with a logger; Marshal after decrypt of 6 message kinds x 6 etypes. distinct = (configuration, last operation) / defect / message classes"
+	c.Cov["rule"] = "every operation sequence up to depth 2 (3 thorough) after a login over the 13-operation alphabet x 5 configurations (password / keytab, pre-authentication none / required / assumed, rc4 only, renewable) with every surface scanned after every step; every reply perturbation of the C09 catalogue (40) on the AS and on the TGS exchange x 3 configurations; every truncation and 7-8 single-byte corruptions per offset of keytabs (v1, v2) and a ccache holding marker keys; every defect of the C01 catalogue x 6 etypes presented to the service with a logger; Marshal after decrypt of 8 message kinds x 6 etypes (incl. KDC request bodies and ticket sequences holding a ticket decrypted before). distinct = (configuration, last operation) / defect / message classes"
 }
